@@ -128,7 +128,7 @@ class Simulation(object):
         """
         routers_dict = {}
         for clss in self.network.customer_class_names:
-            routers_dict[clss] = self.network.customer_classes[clss].routing
+            routers_dict[clss] = copy.deepcopy(self.network.customer_classes[clss].routing)
             routers_dict[clss].initialise(self)
         return routers_dict
 
